@@ -223,7 +223,7 @@ Print Assumptions C14_t_not_nan.
    on this class.  Pinned here: the witness is in the class, and already in the binary64 model closest_t of the fit's
    initial guess is NaN because e = 4 pi^2 r R / h^2 = inf/inf. *)
 Theorem C14_tinyphi_known_witness :
-  tinyphi_class tinyphi_witness = true
+  tinyphi_class tinyphi_libm tinyphi_witness = true
   /\ match tinyphi_witness with
      | p :: _ => PrimFloat.is_nan (closest_t tinyphi_libm tinyphi_guess p EPS 20) = true
                  /\ PrimFloat.is_nan (kf_e (kepler_setup tinyphi_libm tinyphi_guess p)) = true
